@@ -193,6 +193,27 @@ def candidates(cfg, model):
         add('add_symlink', symlink_path='/SYM.;1', rr_symlink_name='sym', rr_path='t', udf_symlink_path=udf_file, udf_target='t')
         add('add_symlink', udf_symlink_path=udf_file, udf_target='t')
 
+    # ---- payloads that cannot be recorded (refused late in the call unless pre-checked) ----
+    LONG_T = '/'.join(['t' * 248] * 9)          # Rock Ridge target needing more than one continuation block
+    if U:
+        add('add_symlink', udf_symlink_path='/sym', udf_target='a' * 255)
+        add('add_symlink', symlink_path='/SYM.;1', udf_symlink_path='/sym', udf_target='a' * 255, **({'joliet_path': '/sym'} if J else {}))
+        if rr:
+            add('add_symlink', symlink_path='/SYM.;1', rr_symlink_name='sym', rr_path='t', udf_symlink_path='/sym', udf_target='b/' + 'a' * 255,
+                **({'joliet_path': '/sym'} if J else {}))
+        add('add_fp', content='c1', iso_path=new_iso, udf_path='/' + 'u' * 255, **dict(jkw, **rrn('n')))
+        add('add_directory', iso_path='/NEWD', udf_path='/' + 'u' * 255, **dict(jkw, **rrn('n')))
+        add('add_hard_link', **dict({'iso_old_path': iso_file, 'udf_new_path': '/' + 'u' * 255} if iso_file else {'udf_new_path': '/x'}))
+    if rr:
+        add('add_symlink', symlink_path='/SYM.;1', rr_symlink_name='sym', rr_path=LONG_T, **({'joliet_path': '/sym'} if J else {}))
+        add('add_fp', content='c1', iso_path=new_iso, rr_name='n' * 3000, **jkw)
+        add('add_directory', iso_path='/NEWD', rr_name='n' * 3000, **jkw)
+        add('add_symlink', symlink_path='/SYM.;1', rr_symlink_name='s' * 3000, rr_path='t')
+        if iso_file:
+            add('add_hard_link', iso_old_path=iso_file, iso_new_path='/LNK.;1', rr_name='n' * 3000)
+    if J and iso_file:
+        add('add_hard_link', iso_old_path=iso_file, joliet_new_path='/' + LONG_J)
+
     # ---- El Torito / hybrid ---------------------------------------------------
     add('rm_eltorito')
     add('add_eltorito', bootfile_path='/NOPE.;1')
@@ -200,6 +221,8 @@ def candidates(cfg, model):
     if iso_dir:
         add('add_eltorito', bootfile_path=iso_dir)
     if iso_file:
+        add('add_eltorito', bootfile_path=iso_file)                       # a fault when a default catalog name is taken
+        add('add_eltorito', bootfile_path=iso_file, boot_info_table=True)
         add('add_eltorito', bootfile_path=iso_file, media_name='bogus')
         add('add_eltorito', bootfile_path=iso_file, media_name='floppy')
         add('add_eltorito', bootfile_path=iso_file, media_name='hdemul')
